@@ -760,17 +760,17 @@ def vc_call(H):
         class S:
             def __init__(self, n):
                 self.name = n
-        sb, sa = S('b1'), S('a2')
+        sb, sa, sc = S('a2'), S('a12'), S('a')          # name order a < a12 < a2 (as MultiVector.__call__ sorts keywords)
         vals, keys = sym('values'), sym('keys')
         alg = sym('algebra', attrs={'cse': sym('cse')})
-        mv = sym('mv', attrs={'free_symbols': {sb, sa}, 'algebra': alg, 'values': sym('mv.values', callable_result=lambda i, m, a, k: [vals]),
+        mv = sym('mv', attrs={'free_symbols': {sb, sa, sc}, 'algebra': alg, 'values': sym('mv.values', callable_result=lambda i, m, a, k: [vals]),
                               'keys': sym('mv.keys', callable_result=lambda i, m, a, k: (keys,)), 'type_number': 5})
         lam = sym('lambdify')
         r = H.closure(Interp(ctx, source_name='kingdon/codegen.py'), fl,
                       {'lambdify': lam, 'sorted': sorted, 'CodegenOutput': lambda k, f: ('CodegenOutput', k, f),
                        '_type_id': sym('_type_id', callable_result=lambda i, m, a, k: 'T')})(mv)
         calls = [e for e in ctx.events if e[0] == 'call' and e[1] is lam]
-        ok = len(calls) == 1 and calls[0][3].get('args') == {'x': [sa, sb]} and same(calls[0][3].get('exprs'), [vals]) \
+        ok = len(calls) == 1 and calls[0][3].get('args') == {'x': [sc, sa, sb]} and same(calls[0][3].get('exprs'), [vals]) \
             and isinstance(r, tuple) and same(r[1], (keys,))
         ctx.oblige('_lambdify_mv: the single argument unpacks into the free symbols sorted by name; expressions are the values in order; '
                    'result keys are the keys in order', bool(ok), meta={'got': repr(calls)})
